@@ -18,7 +18,7 @@ RULES = {
             "arguments only (no terminal/ambient/receiver state outside the key) and no caller mutates its result in place",
     "R1": "every write of HIDE_CURSOR lies inside the body of a try whose finally writes SHOW_CURSOR under a condition implied by "
           "the hide's own condition (so the cursor is shown again whenever it may have been hidden, whatever interrupts the draw); "
-          "the old-API finally also resets text attributes (SGR_DEFAULT)",
+          "the old-API finally also resets text attributes (SGR_DEFAULT) - written unconditionally (not under a test, not multiplied by or selected on a flag)",
     "R2": "every write of a render output in a draw path is inside a try whose handlers certainly catch the required interruption "
           "classes (old API: KeyboardInterrupt and Exception; new API: KeyboardInterrupt) and call the style's interrupted-draw hook on "
           "every path through the handler",
